@@ -230,8 +230,16 @@ fn prog_once(case: &J, src_override: Option<String>) -> R<J> {
     let mut issues: Vec<J> = vec![];
     let mut out = json!({"src": src});
 
-    // -- new
+    // -- new (with the verification hooks recording, if asked for)
+    let want_trace = case.get("trace").and_then(|b| b.as_bool()) == Some(true);
+    if want_trace {
+        simfony::verif::start();
+    }
     let tmpl = catch_unwind(AssertUnwindSafe(|| TemplateProgram::new(src.as_str())));
+    let mut trace: Vec<String> = if want_trace { simfony::verif::take() } else { vec![] };
+    if want_trace {
+        out["trace"] = json!(trace);
+    }
     let tmpl = match tmpl {
         Err(p) => {
             issues.push(json!({"at":"new","what":"panic","msg": panic_message(p)}));
@@ -294,8 +302,18 @@ fn prog_once(case: &J, src_override: Option<String>) -> R<J> {
     };
     let mut commit_hex = vec![];
     let mut n_runs = 0usize;
+    let mut first_mode = true;
     for dbg in dbg_modes {
+        let rec = want_trace && first_mode;
+        first_mode = false;
+        if rec {
+            simfony::verif::start();
+        }
         let inst = catch_unwind(AssertUnwindSafe(|| tmpl.instantiate(args.clone(), dbg)));
+        if rec {
+            trace.extend(simfony::verif::take());
+            out["trace"] = json!(trace);
+        }
         let compiled = match inst {
             Err(p) => {
                 issues.push(json!({"at":"instantiate","dbg":dbg,"what":"panic","msg": panic_message(p)}));
